@@ -435,6 +435,10 @@ func genRewrite(r *rand.Rand) logqIn {
 		rec.Line = B(line)
 		in.Recs = append(in.Recs, rec)
 	}
+	if r.Intn(3) == 0 {
+		// twins: the same instant and line under other labels - a drop / keep / rename may make them equal, never one
+		in.Recs = withTwins(r, in.Recs)
+	}
 	tpl := func() []partIn {
 		var ps []partIn
 		for k := 1 + r.Intn(3); k > 0; k-- {
